@@ -12,7 +12,9 @@ class _ArgsBucketInMessageId:
 
     @classmethod
     def check(cls, string: str) -> bool:
-        return string.find(cls.KEY, 0, len(cls.KEY) + 3) != -1
+        # only what `construct` produces is a bucket reference, the key alone can also
+        # appear at the start of an ordinary payload (e.g. a JSON string or a list)
+        return string.startswith(f'{{"{cls.KEY}"')
 
     @classmethod
     def deconstruct(cls, string: str) -> str:
